@@ -22,7 +22,7 @@ import re
 from ..inline import inline_view
 from ..mir import AnchorLost
 from .c20 import slice_fields
-from ..util import closure_family, dj_of, truth_edges, norm_cmps, df_of, fn_short, in_set, backward_slice, operand_path, path_last, switch_on, switch_edges
+from ..util import uses_of_local, closure_family, dj_of, truth_edges, norm_cmps, df_of, fn_short, in_set, backward_slice, operand_path, path_last, switch_on, switch_edges
 from ..shapes import Accept, SV, DV, NT, impl_method
 from .c17 import REF_SER, REF_DE, norm_self, ASYMMETRIC, head, fmt, N
 
@@ -259,6 +259,13 @@ def r4(ctx, facts):
     for suf, want, tag in (("serialize_next_constant_length_elem", 1, "fixed"), ("serialize_next_variable_length_elem", 0, "variable")):
         cs = sb.calls_to("serialize::value::" + suf)
         ok = bool(cs) and all(in_set((sdf.state_in.get(c.bb) or {}).get(key), {want}) for c in cs)
+        if not cs:
+            # the helper may be SELECTED in the arm (as a function pointer) and called later through the pointer
+            sel = [(bb, st) for bb in sorted(sb.live_blocks) for st in sb.stmts(bb)
+                   if st[0] == "A" and st[2][0] in ("cast", "use") and any(isinstance(x, list) and len(x) > 2 and x[0] == "k" and x[1] == "fn" and str(x[2]).endswith("::" + suf)
+                                                                           for x in st[2][1:4] if isinstance(x, list))]
+            used = any(uses_of_local(sb, st[1][0]) for _, st in sel)
+            ok = bool(sel) and used and all(in_set((sdf.state_in.get(bb) or {}).get(key), {want}) for bb, _ in sel)
         r.instance("ser:%s-arm" % tag, ok, "%s must be used exactly in the type_size_for_vector() == %s arm" % (suf, "Some" if want else "None"), cs[0].span if cs else sb.span)
     cb = facts.one(r"^scylla_cql_core::serialize::value::serialize_next_constant_length_elem$")
     r.instance("ser:fixed-elements-unsized", bool(cb.calls_to("CellValueBuilder::<'buf>::make_sub_writer_without_size")) and not cb.calls_to("CellValueBuilder::<'buf>::make_sub_writer"),
